@@ -30,28 +30,68 @@ func isMapStringBool(t types.Type) bool {
 	return ok1 && ok2 && k.Kind() == types.String && e.Kind() == types.Bool
 }
 
-// findEqualityWorker: the recursive function called from types.EqualType that carries a
-// map[string]bool parameter.
-func findEqualityWorker(p *Program) (*ssa.Function, *ssa.Parameter) {
-	eq := p.Func(typesPkg, "EqualType")
-	for _, c := range p.callsIn(eq) {
-		sc := c.Common().StaticCallee()
-		if sc == nil || !p.isFirstParty(sc) {
-			continue
+// mapHolder says where an activation keeps a map: in a parameter, or in a field of its
+// pointer receiver (the state of one comparison grouped in a small struct).
+type mapHolder struct {
+	prm   *ssa.Parameter
+	recv  *ssa.Parameter
+	field int
+}
+
+func (h *mapHolder) is(v ssa.Value) bool {
+	if h == nil {
+		return false
+	}
+	if h.prm != nil {
+		return v == ssa.Value(h.prm)
+	}
+	ld, ok := v.(*ssa.UnOp)
+	if !ok {
+		return false
+	}
+	fa, ok := ld.X.(*ssa.FieldAddr)
+	return ok && fa.X == ssa.Value(h.recv) && fa.Field == h.field
+}
+
+// holderOf finds the map of fn (parameter or receiver field) whose type satisfies want.
+func holderOf(fn *ssa.Function, want func(types.Type) bool) *mapHolder {
+	for _, prm := range fn.Params {
+		if want(prm.Type()) {
+			return &mapHolder{prm: prm}
 		}
-		for _, prm := range sc.Params {
-			if isMapStringBool(prm.Type()) && len(p.callsTo(sc, sc)) > 0 {
-				return sc, prm
+	}
+	if fn.Signature.Recv() != nil && len(fn.Params) > 0 {
+		if pt, ok := fn.Params[0].Type().Underlying().(*types.Pointer); ok {
+			if st, ok := pt.Elem().Underlying().(*types.Struct); ok {
+				for i := 0; i < st.NumFields(); i++ {
+					if want(st.Field(i).Type()) {
+						return &mapHolder{recv: fn.Params[0], field: i}
+					}
+				}
 			}
 		}
 	}
-	// EqualType itself may be the recursive worker
-	for _, prm := range eq.Params {
-		if isMapStringBool(prm.Type()) {
-			return eq, prm
+	return nil
+}
+
+// findEqualityWorker: the recursive function called from types.EqualType that carries a
+// map[string]bool visited set, as a parameter or in a field of its receiver.
+func findEqualityWorker(p *Program) (*ssa.Function, *mapHolder) {
+	eq := p.Func(typesPkg, "EqualType")
+	for _, c := range p.callsIn(eq) {
+		sc := c.Common().StaticCallee()
+		if sc == nil || !p.isFirstParty(sc) || sc.Blocks == nil {
+			continue
+		}
+		if h := holderOf(sc, isMapStringBool); h != nil && len(p.callsTo(sc, sc)) > 0 {
+			return sc, h
 		}
 	}
-	anchorFail("recursive equality worker with a visited-set parameter below types.EqualType")
+	// EqualType itself may be the recursive worker
+	if h := holderOf(eq, isMapStringBool); h != nil && h.prm != nil {
+		return eq, h
+	}
+	anchorFail("recursive equality worker with a visited set (parameter or receiver field) below types.EqualType")
 	return nil, nil
 }
 
@@ -66,11 +106,11 @@ func runMemoKey(p *Program, r *RuleResult) {
 		for _, in := range view.Instrs(b) {
 			switch x := in.(type) {
 			case *ssa.Lookup:
-				if x.X == ssa.Value(visited) {
+				if visited.is(x.X) {
 					lookups = append(lookups, x)
 				}
 			case *ssa.MapUpdate:
-				if x.Map == ssa.Value(visited) {
+				if visited.is(x.Map) {
 					updates = append(updates, x)
 				}
 			}
@@ -129,16 +169,13 @@ func runMemoKey(p *Program, r *RuleResult) {
 		}
 	}
 	// every recursive call fed from the environment is preceded by an insertion
-	var env *ssa.Parameter
-	for _, prm := range fn.Params {
-		if m, ok := prm.Type().Underlying().(*types.Map); ok && !isMapStringBool(prm.Type()) {
-			_ = m
-			env = prm
-		}
-	}
+	env := holderOf(fn, func(t types.Type) bool {
+		_, ok := t.Underlying().(*types.Map)
+		return ok && !isMapStringBool(t)
+	})
 	isUpdate := func(in ssa.Instruction) bool {
 		mu, ok := in.(*ssa.MapUpdate)
-		return ok && mu.Map == ssa.Value(visited)
+		return ok && visited.is(mu.Map)
 	}
 	n := 0
 	for _, c := range p.callsTo(fn, fn) {
@@ -165,14 +202,14 @@ func runMemoKey(p *Program, r *RuleResult) {
 }
 
 // derivesFromLookup: v is (a phi of / a field of / an extract of) a lookup in map m.
-func derivesFromLookup(v ssa.Value, m *ssa.Parameter, seen map[ssa.Value]bool) bool {
+func derivesFromLookup(v ssa.Value, m *mapHolder, seen map[ssa.Value]bool) bool {
 	if m == nil || seen[v] {
 		return false
 	}
 	seen[v] = true
 	switch x := v.(type) {
 	case *ssa.Lookup:
-		return x.X == ssa.Value(m)
+		return m.is(x.X)
 	case *ssa.Extract:
 		return derivesFromLookup(x.Tuple, m, seen)
 	case *ssa.Field:
@@ -357,7 +394,15 @@ func init() {
 func runFieldCoverage(p *Program, r *RuleResult) {
 	fn, _ := findEqualityWorker(p)
 	name := fnName(fn)
-	if len(fn.Params) < 2 {
+	// the two operands: the first two parameters of the compared interface type (a receiver
+	// holding the state of the comparison comes before them)
+	var ops []*ssa.Parameter
+	for _, prm := range fn.Params {
+		if isSessionTypeType(prm.Type()) {
+			ops = append(ops, prm)
+		}
+	}
+	if len(ops) < 2 {
 		anchorFail("operands of %s", fn)
 	}
 	var lineage func(v ssa.Value, depth int) int
@@ -367,10 +412,10 @@ func runFieldCoverage(p *Program, r *RuleResult) {
 		}
 		switch x := v.(type) {
 		case *ssa.Parameter:
-			if x == fn.Params[0] {
+			if x == ops[0] {
 				return 1
 			}
-			if x == fn.Params[1] {
+			if x == ops[1] {
 				return 2
 			}
 		case *ssa.Phi:
@@ -441,9 +486,16 @@ func runFieldCoverage(p *Program, r *RuleResult) {
 		switch {
 		case com.IsInvoke() && com.Method.Name() == "Equals":
 			x, y = com.Value, com.Args[0]
-		case com.StaticCallee() != nil && p.isFirstParty(com.StaticCallee()) && len(com.Args) >= 2 &&
-			types.Identical(com.Args[0].Type(), com.Args[1].Type()) && (isSessionTypeType(com.Args[0].Type()) || isOptionSlice(com.Args[0].Type())):
-			x, y = com.Args[0], com.Args[1]
+		case com.StaticCallee() != nil && p.isFirstParty(com.StaticCallee()) && len(com.Args) >= 2:
+			// the first two adjacent arguments of the compared kind (a receiver may precede them)
+			for i := 0; i+1 < len(com.Args) && x == nil; i++ {
+				if types.Identical(com.Args[i].Type(), com.Args[i+1].Type()) && (isSessionTypeType(com.Args[i].Type()) || isOptionSlice(com.Args[i].Type())) {
+					x, y = com.Args[i], com.Args[i+1]
+				}
+			}
+			if x == nil {
+				continue
+			}
 		default:
 			continue
 		}
@@ -806,7 +858,39 @@ func runSiblingChoice(p *Program, r *RuleResult) {
 		return
 	}
 	sort.Slice(sib, func(i, j int) bool { return sib[i].Obj().Name() < sib[j].Obj().Name() })
-	A, B := sib[0], sib[1]
+	// the two product constructors (A * B and A -* B): two session-type components and a mode
+	var prod []*types.Named
+	for _, T := range p.Implementers(p.Named(typesPkg, "SessionType")) {
+		st, ok := T.Underlying().(*types.Struct)
+		if !ok {
+			continue
+		}
+		nST, nMode, nOther := 0, 0, 0
+		for i := 0; i < st.NumFields(); i++ {
+			switch {
+			case isSessionTypeType(st.Field(i).Type()):
+				nST++
+			case isModalityType(st.Field(i).Type()):
+				nMode++
+			default:
+				nOther++
+			}
+		}
+		if nST == 2 && nMode == 1 && nOther == 0 {
+			prod = append(prod, T)
+		}
+	}
+	sort.Slice(prod, func(i, j int) bool { return prod[i].Obj().Name() < prod[j].Obj().Name() })
+	pairs := [][2]*types.Named{{sib[0], sib[1]}}
+	if len(prod) == 2 {
+		pairs = append(pairs, [2]*types.Named{prod[0], prod[1]})
+	}
+	for _, pr := range pairs {
+		runSiblingPair(p, r, pr[0], pr[1])
+	}
+}
+
+func runSiblingPair(p *Program, r *RuleResult, A, B *types.Named) {
 	exempt := map[string]string{
 		"Polarity": "the two differ exactly in polarity", "String": "printing (R-PRINT-GRAMMAR)", "StringWithModality": "printing", "StringWithOuterModality": "printing",
 	}
@@ -820,8 +904,8 @@ func runSiblingChoice(p *Program, r *RuleResult) {
 		if fa == nil || fb == nil || fa.Blocks == nil || fb.Blocks == nil {
 			continue
 		}
-		na := normSSA(fa, A.Obj().Name(), "Choice")
-		nb := normSSA(fb, B.Obj().Name(), "Choice")
+		na := normSSA(fa, A.Obj().Name(), "Sibling")
+		nb := normSSA(fb, B.Obj().Name(), "Sibling")
 		diff := ""
 		if len(na) != len(nb) {
 			diff = fmt.Sprintf("%d vs %d instructions", len(na), len(nb))
@@ -835,7 +919,7 @@ func runSiblingChoice(p *Program, r *RuleResult) {
 			r.add("types."+A.Obj().Name()+"/"+B.Obj().Name(), "sibling:"+name, Holds, p.pos(fa.Pos()), fmt.Sprintf("%d instructions identical up to the receiver type", len(na)))
 		} else {
 			r.add("types."+A.Obj().Name()+"/"+B.Obj().Name(), "sibling:"+name, Violated, p.pos(fb.Pos()),
-				fmt.Sprintf("%s.%s and %s.%s are no longer the same function (%s): internal and external choice would be inferred/checked differently", A.Obj().Name(), name, B.Obj().Name(), name, diff))
+				fmt.Sprintf("%s.%s and %s.%s are no longer the same function (%s): the two sibling constructors would be inferred/checked differently", A.Obj().Name(), name, B.Obj().Name(), name, diff))
 		}
 	}
 }
